@@ -761,6 +761,9 @@ func (ctx *actorContext) tryTerminated() {
 	notifyMessage := &messages.Terminated{TerminatedProcess: ctx.ref}
 	// 通知监听者
 	for _, ref := range ctx.watchers {
+		if ctx.parentRef != nil && ref.Equal(ctx.parentRef) {
+			continue // the parent is notified below, exactly once
+		}
 		ctx.deliverySystemMessage(ref, ref, ctx.ref, nil, notifyMessage)
 	}
 
